@@ -87,10 +87,10 @@ def opcode_conformance(ctx, r: Rust, arms):
                 problems.append('undocumented effect: ' + '; '.join(a['extra']))
             if a.get('silent'):
                 problems.append('operands are read through ' + ', '.join(a['silent']) + ', which stops silently at end of input')
-            if not any(a['reads'] == s['reads'] and a['conds'] == s['conds'] and a['effects'] == s['effects'] for s in spec):
+            if not any(M.same_case(a, s) for s in spec):
                 problems.append('accepting case not in the documented row: ' + M.show_case(a))
         for s in spec:
-            if not any(a['reads'] == s['reads'] and a['conds'] == s['conds'] and a['effects'] == s['effects'] for a in acc):
+            if not any(M.same_case(a, s) for a in acc):
                 problems.append('documented case missing: ' + M.show_case(s))
         ctx.ob('opcode-row', op, not problems, ' | '.join(problems), where,
                facts={'extracted': [M.show_case(a) for a in acc], 'documented': [M.show_case(s) for s in spec]})
